@@ -54,26 +54,43 @@ where
     T: AsRef<str>,
 {
     fn decode(&self) -> Result<Vec<u8>, ()> {
-        let input = self.as_ref();
+        let input = self.as_ref().as_bytes();
         let mut result: Vec<u8> = Vec::with_capacity(input.len() * 3 / 4);
 
-        for group in input.as_bytes().chunks(4) {
+        // Base64 text consists of complete groups of four symbols
+        if input.len() % 4 != 0 {
+            return Err(());
+        }
+
+        let group_count = input.len() / 4;
+
+        for (group_index, group) in input.chunks(4).enumerate() {
             let mut decoded: u32 = 0;
             let mut broken: usize = 4;
 
             for (i, tem) in group.iter().enumerate() {
-                match tem {
-                    b'A'..=b'Z' => decoded |= ((tem - b'A') as u32) << (6 * (3 - i)),
-                    b'a'..=b'z' => decoded |= ((tem - b'a' + 26) as u32) << (6 * (3 - i)),
-                    b'0'..=b'9' => decoded |= ((tem - b'0' + 52) as u32) << (6 * (3 - i)),
-                    b'+' => decoded |= 62_u32 << (6 * i),
-                    b'/' => decoded |= 63_u32 << (6 * i),
+                let value = match tem {
+                    b'A'..=b'Z' => (tem - b'A') as u32,
+                    b'a'..=b'z' => (tem - b'a' + 26) as u32,
+                    b'0'..=b'9' => (tem - b'0' + 52) as u32,
+                    b'+' => 62_u32,
+                    b'/' => 63_u32,
                     b'=' => {
+                        // Padding may only be the last one or two symbols of the final group
+                        if group_index != group_count - 1
+                            || i < 2
+                            || group[i..].iter().any(|symbol| *symbol != b'=')
+                        {
+                            return Err(());
+                        }
+
                         broken = i;
                         break;
                     }
                     _ => return Err(()),
-                }
+                };
+
+                decoded |= value << (6 * (3 - i));
             }
 
             result.extend_from_slice(&decoded.to_be_bytes()[1..broken]);
